@@ -31,6 +31,7 @@ func init() {
 			{"C01-R3", "derived-index guards", c01r3},
 			{"C01-R4", "per-type frame rule against the skip tables", c01r4},
 			{"C01-R5", "proxy-state refresh vs snapshot rebuild", c01r5},
+			{"C01-R6", "reason markers narrow a push only when they are the only reason", c01r6},
 		},
 	})
 }
@@ -1018,4 +1019,84 @@ func funcPkgPath(f *ssa.Function) string {
 		}
 	}
 	return ""
+}
+
+
+// C01-R6: push requests are merged (debounce, per-proxy queue), and a merged request carries the UNION of the reasons of
+// its parts. A needsPush function may therefore skip or narrow a push because of a reason marker ("this is only a
+// headless endpoint update") only if that marker is the request's ONLY reason: every ReasonStats.Has test in the
+// needsPush family lies under a `len(req.Reason) == 1` edge (the idiom PushRequest.IsRequest uses). A test that merely
+// blacklists some other reason lets a different full-push trigger that shares the key kind (e.g. an EndpointUpdate full
+// push for changed service accounts) be swallowed by a marker it was merged with.
+func c01r6(c *Ctx) {
+	p := c.P
+	has := p.FuncObj(pkgModel, "ReasonStats", "Has")
+	var fns []*ssa.Function
+	seen := map[*ssa.Function]bool{}
+	var add func(f *ssa.Function, depth int)
+	add = func(f *ssa.Function, depth int) {
+		if f == nil || seen[f] || f.Blocks == nil || funcPkgPath(f) != istioMod+"/"+pkgXds {
+			return
+		}
+		seen[f] = true
+		fns = append(fns, f)
+		if depth <= 0 {
+			return
+		}
+		eachInstr(f, func(ins ssa.Instruction) {
+			if ci, ok := ins.(ssa.CallInstruction); ok {
+				add(ci.Common().StaticCallee(), depth-1)
+			}
+		})
+		for _, a := range f.AnonFuncs {
+			add(a, depth-1)
+		}
+	}
+	for _, name := range []string{"cdsNeedsPush", "ldsNeedsPush", "rdsNeedsPush", "edsNeedsPush", "ndsNeedsPush"} {
+		add(p.Func(pkgXds, "", name), 2)
+	}
+	n := 0
+	for _, fn := range fns {
+		// edges under which the request has exactly one reason
+		var one []Edge
+		for _, i := range allIfs(fn) {
+			v, neg := stripNot(i.Cond)
+			b, ok := v.(*ssa.BinOp)
+			if !ok || (b.Op != token.EQL && b.Op != token.NEQ) {
+				continue
+			}
+			isLenReason := func(x ssa.Value) bool {
+				call, ok := x.(*ssa.Call)
+				if !ok {
+					return false
+				}
+				bi, ok := call.Call.Value.(*ssa.Builtin)
+				if !ok || bi.Name() != "len" {
+					return false
+				}
+				fv := fieldOfLoad(call.Call.Args[0])
+				return fv != nil && fv.Name() == "Reason"
+			}
+			isOne := func(x ssa.Value) bool {
+				k, ok := x.(*ssa.Const)
+				return ok && k.Value != nil && k.Int64() == 1
+			}
+			if (isLenReason(b.X) && isOne(b.Y)) || (isLenReason(b.Y) && isOne(b.X)) {
+				idx := 0
+				if (b.Op == token.EQL) == neg {
+					idx = 1
+				}
+				one = append(one, Edge{i.Block(), idx})
+			}
+		}
+		ord := 0
+		for _, call := range callsIn(fn, has) {
+			ord++
+			n++
+			c.Check(fmt.Sprintf("reason marker tested only as the sole reason: %s (#%d)", stableFnName(fn), ord), call.Pos(), underEdges(fn, call.Block(), one),
+				"a needsPush decision looks for a reason marker in a request that may be the merge of several requests without establishing that it is the only reason (len(req.Reason) == 1): another trigger merged into the same batch - e.g. an EndpointUpdate full push for a service whose first endpoints or service accounts changed, which uses the same ServiceEntry key kind - is treated as part of the marker and its CDS/LDS/RDS push is skipped, so proxies keep clusters a fresh control plane would build differently")
+		}
+	}
+	c.Check("reason-marker tests in the needsPush family found", token.NoPos, n >= 1, "no ReasonStats.Has test reachable from the needsPush functions (the headless-endpoint marker)")
+	c.Floor(2)
 }
